@@ -1463,7 +1463,7 @@ Proof.
   cbv zeta. split; [|split; [|split]].
   - apply Forall_app. split; [|repeat constructor].
     apply Forall_forall. intros o Ho. apply in_map_iff in Ho. destruct Ho as (i & <- & _).
-    cbn. unfold h32. now rewrite repeat_length.
+    unfold hop_ok, h32. apply repeat_length.
   - reflexivity.
   - reflexivity.
   - reflexivity.
